@@ -13,8 +13,12 @@ namespace {
 
 SCell const_cell(SCell::Kind k, int F, C v) { SCell s; s.kind = k; s.v.assign(F, v); return s; }
 
-void check_solution(Ctx &c, Scenario &sc, Runner &run, long double tol, long double kappa, const char *path) {
-    long double bound = 1e3L * tol + 1e4L * EPS * kappa * 10 + 1e-9L;
+// "Both tolerances must be met before the system is considered to be converged" (vnacal_new(3)): the unknown
+// parameters are judged by p_tolerance alone (ptol), the corrected device -- a function of the error terms -- by
+// the larger of the two (tol).
+void check_solution(Ctx &c, Scenario &sc, Runner &run, long double tol, long double kappa, const char *path, long double ptol = -1) {
+    if (ptol < 0) ptol = tol;
+    long double bound = 1e3L * ptol + 1e4L * EPS * kappa * 10 + 1e-9L;
     for (size_t k = 0; k < sc.uparams.size(); k++) for (int f = 0; f < sc.F; f++) {
         run.log.clear();
         dcx v = vnacal_get_parameter_value(run.vcp, sc.uparams[k].handle, sc.freq[f]);
@@ -24,6 +28,7 @@ void check_solution(Ctx &c, Scenario &sc, Runner &run, long double tol, long dou
         PBT_CHECK(c, e <= bound, "C02.parameter_wrong", "%s: solved parameter %zu at f%d = %.9g%+.9gi, truth %.9Lg%+.9Lgi (error %.3Lg, bound %.3Lg; tol %.1Lg, kappa %.3Lg)",
                   path, k, f, re_(v), im_(v), sc.uparams[k].truth[f].real(), sc.uparams[k].truth[f].imag(), e, bound, tol, kappa);
     }
+    bound = 1e3L * tol + 1e4L * EPS * kappa * 10 + 1e-9L;
     int ci = vnacal_add_calibration(run.vcp, "c", run.vnp);
     PBT_CHECK(c, ci >= 0, "C02.add_calibration", "add_calibration failed: %s", run.log.text().c_str());
     ci = vnacal_find_calibration(run.vcp, "c");
@@ -45,7 +50,7 @@ void check_solution(Ctx &c, Scenario &sc, Runner &run, long double tol, long dou
 // the truths turn by 0.05 rad per index); known vector cells are re-made on the new grid (second object) or
 // absent (same object); a 1-point vector guess has no other frequency to be evaluated at: skipped.
 template <class Setup>
-void resolve_on_other_grid(Ctx &c, Scenario &sc, Runner &run, long double tol, long double kappa, const char *path, bool must_solve, Setup setup) {
+void resolve_on_other_grid(Ctx &c, Scenario &sc, Runner &run, long double tol, long double kappa, const char *path, bool must_solve, Setup setup, long double ptol = -1) {
     bool known_vec = false, guess_vec = false;
     for (auto &st : sc.stds) for (auto &cell : st.cells) if (cell.uparam < 0 && cell.kind == SCell::VECTOR) known_vec = true;
     for (auto &u : sc.uparams) if (!u.correlated && u.guess_vector) guess_vec = true;
@@ -78,7 +83,7 @@ void resolve_on_other_grid(Ctx &c, Scenario &sc, Runner &run, long double tol, l
     }
     PBT_CHECK(c, run.log.n_nonwarning() == 0, "C02.success_with_error_callback", "re-solve returned 0 but reported: %s", run.log.text().c_str());
     c.label("regrid:solved");
-    check_solution(c, sc, run, tol, kappa, path);
+    check_solution(c, sc, run, tol, kappa, path, ptol);
 }
 
 void describe(Ctx &c, Scenario &sc) {
@@ -238,7 +243,8 @@ void lm(Ctx &c) {
     if (late_stress) { c.label("LM:later-frequency-stress:solved"); return; }     // the guess was outside the basin on purpose: nothing is claimed about the values
     if (single_with_unknown || sc.uparams.size() >= 2 || correlated || itlimit <= 3) c.nontrivial();
     // with error weighting the exact data are still exact: same bound
-    check_solution(c, sc, run, std::max(ptol, ettol), kappa, "LM");
+    check_solution(c, sc, run, std::max(ptol, ettol), kappa, "LM", ptol);
+    if (ptol * 100 <= ettol) c.label("LM:p_tol<<et_tol");
     auto knobs = [&](Runner &r) {
         PBT_CHECK(c, vnacal_new_set_p_tolerance(r.vnp, (double)ptol) == 0 && vnacal_new_set_et_tolerance(r.vnp, (double)ettol) == 0 && vnacal_new_set_iteration_limit(r.vnp, itlimit) == 0, "C02.knobs", "setters failed");
         if (m_error) { double nf = 1e-6; PBT_CHECK(c, vnacal_new_set_m_error(r.vnp, nullptr, 1, &nf, nullptr) == 0, "C02.set_m_error", "set_m_error failed"); }
@@ -247,16 +253,16 @@ void lm(Ctx &c) {
     // converges within the limit, meet the correspondingly tighter bound
     if (itlimit > 3 && c.chance(1, 3)) {
         Runner run2(c, sc); run2.create(); run2.alloc();
-        long double p2 = ptol / 100, e2 = ettol / 100;
+        long double p2 = ptol / 100, e2 = c.boolean() ? ettol / 100 : ettol;      // both, or p_tolerance alone
         PBT_CHECK(c, vnacal_new_set_p_tolerance(run2.vnp, (double)p2) == 0 && vnacal_new_set_et_tolerance(run2.vnp, (double)e2) == 0 && vnacal_new_set_iteration_limit(run2.vnp, itlimit) == 0, "C02.knobs", "setters failed");
         if (m_error) { double nf = 1e-6; PBT_CHECK(c, vnacal_new_set_m_error(run2.vnp, nullptr, 1, &nf, nullptr) == 0, "C02.set_m_error", "set_m_error failed"); }
         for (auto &st : sc.stds) PBT_CHECK(c, run2.add(st) == 0, "C02.add_refused", "add refused on the second run: %s", run2.log.text().c_str());
         run2.log.clear(); errno = 0;
-        if (vnacal_new_solve(run2.vnp) == 0) { c.label("tightened:ok"); check_solution(c, sc, run2, std::max(p2, e2), kappa, "LM-tightened"); }
+        if (vnacal_new_solve(run2.vnp) == 0) { c.label("tightened:ok"); check_solution(c, sc, run2, std::max(p2, e2), kappa, "LM-tightened", p2); }
         else { PBT_CHECK(c, errno == EDOM, "C02.failure_report", "tightened run failed with errno %d", errno); c.label("tightened:failed"); }
         return;     // run2 re-made the parameter handles in its own vnacal_t
     }
-    if (itlimit > 3 && c.chance(1, 2)) resolve_on_other_grid(c, sc, run, std::max(ptol, ettol), kappa, "LM-regrid", false, knobs);
+    if (itlimit > 3 && c.chance(1, 2)) resolve_on_other_grid(c, sc, run, std::max(ptol, ettol), kappa, "LM-regrid", false, knobs, ptol);
 }
 
 } // namespace
